@@ -394,6 +394,16 @@ func (r *transport) handleCacheHit(
 revalidate:
 	req = withConditionalHeaders(req, stored.Data.Header)
 	resp, start, end, err := r.roundTripTimed(req)
+	if err == nil && resp.StatusCode == http.StatusNotModified &&
+		!validatesStored(req, stored.Data.Header) {
+		// The 304 answers the client's own precondition, not a validator of
+		// the stored response (RFC 9111 §4.3.3): it is the origin's answer.
+		internal.CacheStatusMiss.ApplyTo(resp.Header)
+		r.logger.LogCacheMiss(req, urlKey, internal.MiscFunc(func() internal.Misc {
+			return internal.Misc{CCReq: ccReq, Stored: stored, Refs: refs, RefIndex: refIndex}
+		}))
+		return resp, nil
+	}
 	ctx := internal.RevalidationContext{
 		URLKey:    urlKey,
 		Start:     start,
@@ -444,6 +454,7 @@ func (r *transport) handleStaleWhileRevalidate(
 ) (*http.Response, error) {
 	req2 := req.Clone(req.Context())
 	req2 = withConditionalHeaders(req2, stored.Data.Header)
+	validates := validatesStored(req2, stored.Data.Header)
 	if strip != nil {
 		// After the validators were copied and before the cache adds its own
 		// fields (Age and the status fields are not the origin's to withhold).
@@ -457,7 +468,7 @@ func (r *transport) handleStaleWhileRevalidate(
 	//
 	// Open a discussion at github.com/bartventer/httpcache/issues if your use case requires
 	// guaranteed completion.
-	go r.backgroundRevalidate(req2, stored, urlKey, freshness, ccReq)
+	go r.backgroundRevalidate(req2, stored, urlKey, freshness, ccReq, validates)
 	internal.SetAgeHeader(stored.Data, r.clock, freshness.Age)
 	internal.CacheStatusStale.ApplyTo(stored.Data.Header)
 	r.logger.LogCacheStaleRevalidate(req, urlKey, internal.MiscFunc(func() internal.Misc {
@@ -476,6 +487,7 @@ func (r *transport) backgroundRevalidate(
 	urlKey string,
 	freshness *internal.Freshness,
 	ccReq internal.CCRequestDirectives,
+	validates bool, // a 304 to req is about the stored response
 ) {
 	ctx, cancel := context.WithTimeout(req.Context(), r.swrTimeout)
 	defer cancel()
@@ -500,6 +512,10 @@ func (r *transport) backgroundRevalidate(
 			errc <- req.Context().Err()
 			return
 		default:
+		}
+		if resp.StatusCode == http.StatusNotModified && !validates {
+			errc <- nil // answers the client's own precondition: nothing to freshen
+			return
 		}
 		// The stored response has been handed to the caller and must not be
 		// touched again: work on a copy of the entry read back from the cache,
